@@ -17,7 +17,7 @@ from harness.common import Run
 from harness.table_engine import run_table_property
 from harness.tlc import make_cfg, run_tlc
 
-OPS = ["transpose", "transpose", "rstrip", "rstrip", "optimize_width", "optimize_width", "csv",
+OPS = ["transpose", "transpose", "transpose_area", "transpose_area", "rstrip", "rstrip", "optimize_width", "optimize_width", "csv",
        "set_cell", "set_row", "insert_cell", "append_row", "set_values", "delete_cell", "insert_column", "set_column_cells"]
 SPAN_INV = ["SetThenDelRestores", "NoOrphanCovered"]
 SPAN_PROP = ["CoversExactly", "RefusesOverlap", "ValuesKept"]
